@@ -111,4 +111,12 @@ def sys : Sys Cert :=
   { featNative := false, featWebpki := false, nativeCerts := [], webpkiRoots := [],
     validServerName := fun s => s != "not a name!" }
 
+/-- The side builds of the correspondence run (`harness_c15n`, `harness_c15nw`): tonic linked with
+`tls-native-roots` (and `tls-webpki-roots`).  The platform store is whatever `SSL_CERT_FILE`
+points rustls-native-certs at for the case (`store`); the `webpki-roots` crate of the `nw`
+build is a stand-in whose one anchor is the test CA `ca2`. -/
+def sysWith (webpki : Bool) (store : List Cert) : Sys Cert :=
+  { featNative := true, featWebpki := webpki, nativeCerts := store, webpkiRoots := [.ca2],
+    validServerName := fun s => s != "not a name!" }
+
 end Tls.TestPki
